@@ -28,7 +28,7 @@ ASSUMPTIONS = [
     'across transpose',
 ]
 ANCHORS = ['Table.sort_order', 'Table.sort', 'Table.align_to', 'Table.transpose', 'Table.update_ids', 'Table.copy', 'natsort']
-REQUIRED = ['natsort_probes', 'natsort_decimal_checked', 'result_metadata_edits', 'sort_order', 'sort', 'align_to', 'transpose', 'copy',
+REQUIRED = ['natural_order_checked', 'natsort_probes', 'natsort_decimal_checked', 'result_metadata_edits', 'sort_order', 'sort', 'align_to', 'transpose', 'copy',
             'update_ids', 'update_ids_refused', 'align_refused',
             'inverse_roundtrips', 'layout_csc_seen', 'layout_unsorted_seen',
             'objdtype_ids']
@@ -235,6 +235,13 @@ def run_random(ctx, index):
                 raise Violation('C06/sort-not-permutation', 'sort produced '
                                 'ids %r from %r; case=%r' % (order, ids,
                                                              desc))
+            if all(i.isascii() for i in ids):
+                want = sorted(ids, key=natural_key)
+                if order != want:
+                    raise Violation('C06/natsort-order', 'default sort gave '
+                                    '%r, natural order is %r; case=%r' %
+                                    (order, want, desc))
+                ctx.count('natural_order_checked')
             # numeric order for ids of the form <same prefix><int>
             import re
             mm = [re.fullmatch(r'([A-Za-z]*)(\d+)', i) for i in ids]
@@ -432,6 +439,42 @@ def summarize(counters, extra, tier):
             (len(_PERMS), len(_RECIPES))}
 
 
+def natural_key(s):
+    """Natural order, stated independently of the library (a scanner, not
+    its regular expression): an id is cut into runs of ASCII digits with an
+    optional '.digits' fraction (numbers: they compare by value and sort
+    before text) and the text between them; the id itself breaks ties."""
+    digits = '0123456789'
+    out, i, n = [], 0, len(s)
+    if n and s[0] in digits:
+        out.append((1, ''))
+    while i < n:
+        if s[i] in digits:
+            j = i
+            while j < n and s[j] in digits:
+                j += 1
+            frac = False
+            if j + 1 < n and s[j] == '.' and s[j + 1] in digits:
+                j += 1
+                while j < n and s[j] in digits:
+                    j += 1
+                frac = True
+            out.append((0, float(s[i:j]) if frac else int(s[i:j])))
+            i = j
+            k = i
+            while k < n and s[k] not in digits:
+                k += 1
+            out.append((1, s[i:k]))     # (possibly empty) text after it
+            i = k
+        else:
+            k = i
+            while k < n and s[k] not in digits:
+                k += 1
+            out.append((1, s[i:k]))
+            i = k
+    return (out or [(1, '')], s)
+
+
 def stress(ctx):
     """Fixed probes of the default (natural) order: numbers inside ids
     compare as numbers, with and without fractional parts, on both axes."""
@@ -442,6 +485,24 @@ def stress(ctx):
          '9.99', '9.9', '1.25', '1.3'],
         ['1', '2', '10', '20', '100', '9', '11', '101', '19', '3'],
     ]
+    # a point that is not part of a number is text
+    odd = ['S1.run', 'S1_run', 'S1Run', 'S1.5run', 'lane2.', 'lane2-',
+           'lane2.0', 'otu7.b', 'otu7b', 'otu7.1b', 'v1.2.3', 'v1.2.10',
+           'v1.10', '1.a', '1a', '1.5a']
+    for axis in ('sample', 'observation'):
+        ids = list(odd)
+        r.shuffle(ids)
+        V = np.arange(len(ids) * 2, dtype=float).reshape(len(ids), 2) + 1
+        spec = gen.Spec(ids if axis == 'observation' else ['a', 'b'],
+                        ['a', 'b'] if axis == 'observation' else ids,
+                        V if axis == 'observation' else V.T)
+        res = gen.build(ctx.biom, spec, 'dense').sort(axis=axis)
+        order = [str(i) for i in res.ids(axis=axis)]
+        want = sorted(ids, key=natural_key)
+        if order != want:
+            raise Violation('C06/natsort-order', 'default sort gave %r, '
+                            'natural order is %r' % (order, want))
+        ctx.count('natsort_probes')
     for pool in pools:
         for pre in ('', 'd', 'sample_'):
             for axis in ('sample', 'observation'):
